@@ -599,6 +599,15 @@ func isFraming(v ssa.Value) bool {
 		case *ssa.Slice:
 			rec(y.X, d+1)
 		case *ssa.Convert:
+			// a length squeezed into a narrower integer (byte(len(x))) wraps around and frames nothing
+			if tb, ok := y.Type().Underlying().(*types.Basic); ok && tb.Info()&types.IsInteger != 0 {
+				if sb, ok := y.X.Type().Underlying().(*types.Basic); ok && sb.Info()&types.IsInteger != 0 {
+					narrow := map[types.BasicKind]bool{types.Uint8: true, types.Int8: true, types.Uint16: true, types.Int16: true, types.Int32: true, types.Uint32: true}
+					if narrow[tb.Kind()] && !narrow[sb.Kind()] {
+						return
+					}
+				}
+			}
 			rec(y.X, d+1)
 		case *ssa.BinOp:
 			rec(y.X, d+1)
